@@ -965,6 +965,9 @@ class Body:
         if k in seen:
             return []
         seen.add(k)
+        if len(path) > 16 or len(via) > 64:
+            # a path that keeps growing through a cycle of summaries (slicing in a loop): stop with an explicit unknown leaf
+            return [Leaf("unknown", {"l": l, "p": []}, path, via)]
         out = []
         ds = self.defs.get(l, [])
         if 1 <= l <= self.argc:
